@@ -90,11 +90,9 @@ func (g *Gen) resolveType(s string, pkg *types.Package) (types.Type, error) {
 	}
 	if k := strings.Index(s, "."); k >= 0 {
 		pn, tn := s[:k], s[k+1:]
-		for _, imp := range pkg.Imports() {
-			if imp.Name() == pn || importAlias(g, pkg, imp) == pn {
-				if obj := imp.Scope().Lookup(tn); obj != nil {
-					return obj.Type(), nil
-				}
+		if imp := g.lookupImport(pkg, pn); imp != nil {
+			if obj := imp.Scope().Lookup(tn); obj != nil {
+				return obj.Type(), nil
 			}
 		}
 		// any loaded package with that name
@@ -120,7 +118,26 @@ func (g *Gen) resolveType(s string, pkg *types.Package) (types.Type, error) {
 	return nil, fmt.Errorf("unknown type %s", s)
 }
 
-func importAlias(g *Gen, pkg, imp *types.Package) string { return imp.Name() }
+// lookupImport resolves a package qualifier used in a spec: a file-level import alias of pkg, or the
+// name of one of its imports.
+func (g *Gen) lookupImport(pkg *types.Package, name string) *types.Package {
+	if pkg == nil {
+		return nil
+	}
+	if path, ok := g.aliases[pkg.Path()][name]; ok {
+		for _, imp := range pkg.Imports() {
+			if imp.Path() == path {
+				return imp
+			}
+		}
+	}
+	for _, imp := range pkg.Imports() {
+		if imp.Name() == name {
+			return imp
+		}
+	}
+	return nil
+}
 
 func (c *FnCtx) evalSpec(e Expr, env *Env) (TV, error) {
 	u := c.g.u
@@ -416,7 +433,9 @@ func (c *FnCtx) evalObject(obj types.Object, env *Env) (TV, error) {
 	case *types.Var:
 		key := "G_" + mangle(o.Pkg().Path()+"."+o.Name())
 		c.g.heapSorts[key] = c.g.u.sortOf(o.Type())
-		return TV{c.heap(env.st, key, c.g.u.sortOf(o.Type())), o.Type()}, nil
+		gv := c.heap(env.st, key, c.g.u.sortOf(o.Type()))
+		c.sentinelFact(o.Name(), o.Type(), gv)
+		return TV{gv, o.Type()}, nil
 	}
 	return TV{}, fmt.Errorf("cannot use %s in a spec", obj.Name())
 }
@@ -471,11 +490,9 @@ func (c *FnCtx) evalSel(x *ESel, env *Env) (TV, error) {
 	if id, ok := x.X.(*EIdent); ok {
 		if _, bound := env.vars[id.Name]; !bound && c.resolveLocalQuiet(id.Name, env) == nil {
 			pkg := env.pkg()
-			for _, imp := range pkg.Imports() {
-				if imp.Name() == id.Name {
-					if obj := imp.Scope().Lookup(x.Name); obj != nil {
-						return c.evalObject(obj, env)
-					}
+			if imp := c.g.lookupImport(pkg, id.Name); imp != nil {
+				if obj := imp.Scope().Lookup(x.Name); obj != nil {
+					return c.evalObject(obj, env)
 				}
 			}
 			if pkg.Scope().Lookup(id.Name) == nil {
@@ -631,6 +648,18 @@ func (c *FnCtx) evalCall(x *ECall, env *Env) (TV, error) {
 			key, hs := c.g.elemHeapKey(types.Typ[types.Uint8])
 			h := c.heap(env.st, key, hs)
 			return TV{c.bytesEqual(h, args[0].t, args[1].t), types.Typ[types.Bool]}, nil
+		case "deref":
+			args, err := evalArgs()
+			if err != nil {
+				return TV{}, err
+			}
+			p, ok := types.Unalias(args[0].typ).Underlying().(*types.Pointer)
+			if !ok {
+				return TV{}, fmt.Errorf("deref of non-pointer")
+			}
+			k, s := c.g.heapKeyFor(p.Elem())
+			h := c.heap(env.st, k, s)
+			return TV{sel(h, args[0].t), p.Elem()}, nil
 		case "isFresh", "sameArray":
 			args, err := evalArgs()
 			if err != nil {
@@ -700,8 +729,8 @@ func (c *FnCtx) evalCall(x *ECall, env *Env) (TV, error) {
 		// pkg.Func(...) or recv.Method(...)
 		if id, ok := sel.X.(*EIdent); ok {
 			if _, bound := env.vars[id.Name]; !bound && c.resolveLocalQuiet(id.Name, env) == nil && env.pkg().Scope().Lookup(id.Name) == nil {
-				for _, imp := range env.pkg().Imports() {
-					if imp.Name() == id.Name {
+				for _, imp := range []*types.Package{c.g.lookupImport(env.pkg(), id.Name)} {
+					if imp != nil {
 						if obj, ok := imp.Scope().Lookup(sel.Name).(*types.Func); ok {
 							args, err := evalArgs()
 							if err != nil {
